@@ -52,6 +52,8 @@ def run(ck):
         ({"A": {"n": {"f": "a"}}, "B": {"n": {"g": "b"}}, "condition": "A and B"}, [{"n": {"f": "a", "g": "b"}}, {"n": [{"f": "a"}, {"g": "b"}]}, {}]),
         ({"A": {"f": ["foo", "bar"], "g": ["ifoo", "i*bar"]}, "condition": "A"}, [{"f": "foo", "g": "FOO"}, {"f": "bar", "g": "xBAR"}, {"f": "foo"}]),
         ({"X": [{"f": {"all(k)": ["*a*", "?b"]}}, {"f": {"g": "x"}}], "condition": "X"}, [{"f": [{"k": "a"}, {"k": "b"}]}, {"f": [{"k": "ab"}]}, {"f": {"k": "ab"}}, {"f": [{"g": "x"}]}, {}]),
+        ({"A": {"f": {"all(k)": ["*a*", "?b"]}}, "B": {"f": {"g": "x"}}, "C": {"h": "y"}, "condition": "A and B and C"},
+         [{"f": [{"k": "a", "g": "x"}, {"k": "b"}], "h": "y"}, {"f": [{"k": "ab", "g": "x"}], "h": "y"}, {"h": "y"}]),
         ({"X": {"f": [{"all(k)": ["*a*", "?b"]}, {"all(k)": ["*c*", "?d"]}]}, "condition": "X"}, [{"f": [{"k": "a"}, {"k": "b"}]}, {"f": [{"k": "cd"}]}, {}]),
         ({"A": {"f": ["i?^foo", "i?bar$", "baz"]}, "condition": "A"}, [{"f": "FOOD"}, {"f": "crowBar"}, {"f": "baz"}, {"f": "x"}, {}]),
         ({"A": {"f": "i?^foo"}, "B": {"f": "i?bar$"}, "C": {"f": "?baz"}, "condition": "A or B or not C"}, [{"f": "FOOD"}, {"f": "crowBar"}, {"f": "bazz"}, {}]),
